@@ -294,3 +294,6 @@ def search(ctx, broken):
 
 def replay(ctx, payload):
     return {"fails": True, "note": "re-run pretext-to-asm in a directory where the listed files pre-exist", "input": payload.get("input")}
+
+
+LEVEL_NOTE = "; ".join(TRUSTED) + '. NEW: the list of files a run opens, their names and ORDER are in the model (Model/CliPlan.lean: pathlib name arithmetic, parse_output_file, name_assemblies as a dict, log/yaml/assembly/.agp/chromosome.list/chr_report); `output_plan_nodup` discharges the `Nodup` hypothesis; `no_clobber_run`, `clobber_run` over the plan (Properties/C16Plan.lean); tie: `path-parse` stream (exhaustive short names + random) and `output-plan` stream (opens observed by the audit hook, in order) + a `history` scenario (second run in the same process)'
